@@ -394,7 +394,14 @@ MORE = ['b.css', 'deep', 'c.json', 'single', 'a', 'b', 'engine', 'noext',
 
 def lifespan_cases(rec):
     import engineio
-    kinds = ['none', 'sync', 'async', 'raise', 'araise']
+    # ('raise-base' / 'araise-cancel': what the callback raises is not an
+    # Exception subclass - an abort signal of the application's own, or the
+    # CancelledError of a task the callback awaited; "raises" is "raises")
+    kinds = ['none', 'sync', 'async', 'raise', 'araise', 'raise-base',
+             'araise-cancel']
+
+    class Abort(BaseException):
+        pass
     for cb, cb2, other in itertools.product(kinds, kinds, [False, True]):
         for phase in ('both', 'startup-only'):
             rec.evaluations += 1
@@ -417,6 +424,16 @@ def lifespan_cases(rec):
                     async def g():
                         calls.append(name)
                     return g
+                if cb == 'raise-base':
+                    def fb():
+                        calls.append(name)
+                        raise Abort('stop')
+                    return fb
+                if cb == 'araise-cancel':
+                    async def hc():
+                        calls.append(name)
+                        raise asyncio.CancelledError()
+                    return hc
 
                 async def h():
                     calls.append(name)
@@ -466,8 +483,12 @@ def lifespan_cases(rec):
                         await t
                     except BaseException:
                         pass
+                elif t.cancelled():
+                    raise RuntimeError('the CancelledError of the callback '
+                                       'left the application')
                 elif t.exception() is not None:
-                    raise t.exception()
+                    raise RuntimeError('left the application: %r' %
+                                       (t.exception(),))
                 return done
             case = {'lifespan': [cb, cb2, other, phase]}
             try:
@@ -480,8 +501,10 @@ def lifespan_cases(rec):
                 rec.viol('lifespan-raises', 'lifespan raised %r (%s)' % (
                     e, case), case)
                 continue
-            raising = cb in ('raise', 'araise')
-            raising2 = cb2 in ('raise', 'araise')
+            raising = cb in ('raise', 'araise', 'raise-base',
+                             'araise-cancel')
+            raising2 = cb2 in ('raise', 'araise', 'raise-base',
+                               'araise-cancel')
             if other and cb == 'none' and cb2 == 'none':
                 want = ['lifespan.startup.complete'] + (
                     ['lifespan.shutdown.complete'] if phase == 'both' else [])
